@@ -201,12 +201,28 @@ CLAIMED.update({
                      'stacks), other shifts or signed overflow.', ref='5 (C08)'),
 })
 
+CLAIMED.update({
+    'C04': dict(cat='proof', tech='abstract interpretation of collect() and of encode()\'s prologue over a disjunctive domain (intervals for room / input left / carried run length, split at the code\'s own comparisons and never widened; a partition domain for equalities between input bytes; a typestate automaton of the greedy run-length packer advanced by the code\'s stores), fixpoint over the run state carried between calls; block-local symbolic store forwarding and guard/dominance rules for compress.c; polynomial provenance of chunk size and capacity',
+                text='Decides, for every block capacity, buffer length, way of splitting the input over calls, run length and '
+                     'pattern of equal bytes: collect() stores only at the fill cursor and only with room; takes the fourth '
+                     'copy of a run only when its count byte fits too; writes counts equal to run length - 4 and closes a '
+                     'run only at 259 or in front of a different byte; declares the block full only with no slot left, or '
+                     'with one slot left after three copies when the next byte exists and continues the run; returns "not '
+                     'full" only with the buffer exhausted; reports as consumed exactly the bytes that are in the block (a '
+                     'byte read ahead is given back, and taken out of the CRC); saves a run state that describes the run '
+                     'in progress (with a slot reserved for an owed count); encode() writes the owed count before sorting. '
+                     'compress.c: default mode packs every visit of a bs100k*100000-byte chunk into a fresh encoder of '
+                     'bs100k*100000 bytes, advances the chunk by what was consumed, re-queues the rest, always finishes the '
+                     'block; --sequential never re-initialises a carried encoder, finishes a block only when collect() said '
+                     'full or no chunk was left, saves it otherwise. Proof-level for collect()/encode() relative to the '
+                     'abstract semantics of lib/rleabs.py; the compress.c part is rule-based. Does NOT decide that the '
+                     'reader delivers full chunks (C03) nor anything downstream of the packer.', ref='5 (C04), 13.9'),
+})
+
 NA = {
     'C01': 'round-trip equality is a numerical fact about RLE/BWT/MTF/Huffman and its inverse over all byte strings; '
            'no sound static argument in reach bounds it (DESIGN.md section 6); its shape-level fragments are decided '
            'under C02/C03',
-    'C04': 'the property is the off-by-one arithmetic of collect() at capacity (look-ahead/unget); needs '
-           'path-sensitive value reasoning, i.e. symbolic execution or model checking (DESIGN.md section 6)',
     'C20': 'optimality of the Package-Merge/Huffman output is a numerical result (DESIGN.md section 6)',
 }
 PENDING = 'check not built yet (build round in progress); see DESIGN.md section 5'
